@@ -1,2 +1,4 @@
 """Importing this package registers every rule."""
 from . import eff  # noqa: F401
+from . import exc  # noqa: F401
+from . import ctxm  # noqa: F401
